@@ -82,6 +82,7 @@ type streamLike interface {
 }
 
 func streamPrim(p *prim, s streamLike) {
+	p.stream = s
 	p.produce = func(msg, aux []byte) ([]byte, error) {
 		var buf bytes.Buffer
 		wr, err := s.NewEncryptingWriter(&buf, aux)
@@ -308,6 +309,7 @@ var subtleCases = []subtleCase{
 // subtleBuild constructs one more instance of the run's subtle primitive from caller buffers.
 func (w *world) subtleBuild() *prim {
 	sc := w.pl.ent.sub
+	w.chainOdd = false
 	b := &builder{w: w, op: sc.op}
 	recvA := sc.recvA
 	if recvA == "" {
@@ -323,11 +325,18 @@ func (w *world) subtleBuild() *prim {
 	w.obsErr(sc.op, "construct", err)
 	w.setAdd("constructors", sc.op)
 	if err != nil {
-		if !w.faulted {
+		if b.odd {
+			w.r.Probe("odd-encoding-refused")
+		} else if !w.faulted {
 			w.fatalf("%s refuses the harness's key material: %v", sc.op, err)
 		}
 		return nil
 	}
+	p.lenient = b.odd
+	if b.odd {
+		w.r.Probe("odd-encoding-accepted")
+	}
+	w.chainOdd = false
 	for _, buf := range b.bufs {
 		w.newTarget(&target{culprit: buf.Op, kind: "input", buf: buf})
 		w.setAdd("constructors", buf.Op)
